@@ -12,6 +12,10 @@ CONSTANTS
   Versions = {769, 770, 771}
   Suites = {49199, 49200, 52392, 49171, 47, 156}
   Hellos = {"Golang-0", "Chrome-100", "Firefox-105"}
+  Suites13 = {4865, 4866, 4867}
+  Hellos13 = {"Golang-0", "Chrome-100_PSK"}
+  ExtraLens13 = {1, 31, 49, 64}
+  SecretLens = {0, 1, 31, 32, 47, 48, 49, 64}
 INIT Init
 NEXT Next
 CHECK_DEADLOCK FALSE
